@@ -10,8 +10,8 @@ META = {
             'GetAllOfType / GetAll as filters of that list; validateAdvisories accepts exactly the consistent finding lists; consistent advisories => the run succeeds and returns every '
             'finding tagged with its own detector, untouched otherwise — at full strength, also when detectors share finding objects (the code tags a copy since fix e8c67092); one status '
             'per detector, failed iff its Scan returned an error; inconsistent findings (unequal advisories under one ID, missing advisory / ID, a nil entry) => failed scan and no detector '
-            'findings; the scan fails iff the findings are inconsistent. Read over ALL findings of a scan the sentence is refuted by the code as it is: findings carried by an EXTRACTOR\'s inventory bypass validation and tagging, and sortResults '
-            'panics on >= 2 findings when one lacks an advisory (decided counterexamples, known finding C20/extractor-findings-unvalidated; no built-in extractor emits findings). Tie: the real Scan with 0..3 fake filesystem extractors over 1..3 in-memory roots, 0..2 fake standalone extractors and 0..4 '
+            'findings; the scan fails iff the findings are inconsistent. The sentence about inconsistent findings is read over ALL findings of a scan, those carried by an extractor\'s inventory included (validated together with the detectors\' since '
+            'fix 89f87523): the emitted findings are consistent for EVERY scan and sortResults can never meet a finding without advisory (C20_emitted_consistent, C20_no_sort_panic: no hypothesis). Tie: the real Scan with 0..3 fake filesystem extractors over 1..3 in-memory roots, 0..2 fake standalone extractors and 0..4 '
             'fake detectors (constant finding lists and index-querying detectors; shared/distinct ids, equal/unequal bodies, missing advisory/id, nil entries, errors, cancellation, finding objects shared between detectors).',
     'also': 'The same stream carries two clauses of other properties, exposed as run_findings_order(ctx) (C08: findings/statuses emitted in the documented order — '
             'Properties/C08Findings.lean, ORDER_THEOREMS) and run_plugin_phases(ctx) (C10: no plugin of any phase starts after a cancellation, failure whenever work remained — '
@@ -22,18 +22,17 @@ META = {
 NS = 'Scalibr.Detector.'
 THEOREMS = [NS + t for t in [
     'C20_once_partial', 'C20_once_prefix', 'C20_status_partial', 'C20_validate_spec', 'C20_tagged_partial', 'C20_tagged_shared_pointer', 'C20_inconsistent_partial',
-    'C20_nil_finding_partial', 'C20_error_iff_partial', 'C20_run_no_nil_partial', 'C20_index_partial', 'C20_tagged_scan_partial', 'C20_status_scan_partial',
-    'C20_inconsistent_scan_partial', 'C20_scan_status_partial', 'C20_extractor_findings_unvalidated', 'C20_extractor_finding_without_advisory', 'C20_no_sort_panic_partial',
+    'C20_nil_finding_partial', 'C20_error_iff_partial', 'C20_run_no_nil_partial', 'C20_index_partial', 'C20_scan_status_partial', 'C20_tagged_scan_partial',
+    'C20_status_scan_partial', 'C20_emitted_consistent', 'C20_inconsistent_scan_partial', 'C20_extractor_findings_validated', 'C20_no_sort_panic',
     'consistentB_iff']] + ['Scalibr.Index.' + t for t in ['new_getSpecific', 'new_getAllOfType', 'new_getAll', 'new_has', 'new_only']]
 
 
-KF_EXF = 'C20/extractor-findings-unvalidated'
 COMPARE = ['_', 'st', 'err', 'calls', 'idx', 'idxsame', 'findset', 'fkeys', 'plugset', 'plugkeys', 'pk', 'mut', 'started', 'pst']
 
 # C08, clause "findings and statuses are emitted in the documented sorted order": Properties/C08Findings.lean
 ORDER_MODULE = 'Scalibr.Properties.C08Findings'
 ORDER_THEOREMS = [NS + t for t in ['C08_cmp_findings', 'C08_cmp_findings_fields', 'C08_cmp_status', 'C08_findings_sorted', 'C08_findings_sorted_keys',
-                                   'C08_findings_keyed_unless_panic', 'C08_findings_key_sequence', 'C08_findings_order_independent', 'C08_tied_findings_swap', 'C08_status_sorted', 'C08_status_name_sequence',
+                                   'C08_findings_keyed', 'C08_findings_key_sequence', 'C08_findings_order_independent', 'C08_tied_findings_swap', 'C08_status_sorted', 'C08_status_name_sequence',
                                    'C08_prefix_reference_first', 'C08_concatenated_key_differs']]
 # C10, clause "once cancelled … runs no further plugin, reporting failure whenever work remained": Properties/C10Plugins.lean
 PHASES_MODULE = 'Scalibr.Properties.C10Plugins'
@@ -106,10 +105,15 @@ def problems(case, fi, fm):
     dets = ','.join(x for x in fi.get('plug', '-').split(',') if x.startswith('det')) or '-'
     if dets != fm.get('sdet'):
         out.append('detstatus')
-    if fi.get('findset') != fm.get('sfind') and not (fm.get('exf') == '1' and fm.get('consall') == '0'):
+    if fm.get('consall', fm.get('cons')) == '1':
+        if fi.get('findset') != fm.get('sfind'):
+            out.append('findings')
+        if fi.get('fkeys') != fm.get('sfkeys'):
+            out.append('findorder')
+    elif fi.get('findset') not in ('-', fm.get('sexf')):
+        # inconsistent findings: nothing may be emitted but, at most, the extractors' own (consistent) findings when it was
+        # the detectors' findings that detector.Run discarded
         out.append('findings')
-    if fi.get('fkeys') != fm.get('sfkeys'):
-        out.append('findorder')
     if fi.get('plugkeys') != fm.get('splugkeys'):
         out.append('statusorder')
     if fi.get('mut') != '0':
@@ -122,7 +126,7 @@ TEXT = {
     'ph-started': 'the started-plugin log differs from "everything up to and including the cancelling iteration, in schedule order"',
     'ph-notfailed': 'plugins of the schedule were never started, yet the scan does not report failure',
     'ph-failed': 'the scan reports failure although every iteration of the schedule ran',
-    'panic': 'Scan panicked (sortResults dereferences the missing advisory of an unvalidated finding)',
+    'panic': 'Scan panicked',
     'calls': 'the detectors were not each called exactly once in order',
     'index': 'the index handed to the detectors is not the filter of the extracted packages',
     'status': 'overall scan status differs from "failed iff the findings of the scan (extractor-emitted ones included) are inconsistent"',
@@ -140,9 +144,7 @@ def run(ctx):
                    'reflect.DeepEqual on two Advisory values with equal IDs = structural equality of the other fields (no NaN CVSS scores)',
                    'harness/cmd/c20gen + lean/Drivers/C20.lean line protocol', 'Lean compiler for the driver executable']
     ctx.assumptions = ['theorems about tagging/status/failure assume no detector cancels the scan\'s context (cancellation skips the remaining detectors by design; C20_once_prefix covers it)',
-                       'findings carried by an EXTRACTOR\'s inventory (no built-in extractor emits any) bypass validateAdvisories and tagging, and sortResults panics on >= 2 findings when one of them '
-                       'lacks an advisory: the property\'s sentence speaks of findings, so this is judged and recorded as known finding ' + KF_EXF + ' (model mirrors it; C20_extractor_findings_unvalidated, '
-                       'C20_extractor_finding_without_advisory); the scan-level failure theorems carry the hypothesis "no extractor findings"',
+                       'findings carried by an extractor\'s inventory (no built-in extractor emits any) are not tagged; they are validated together with the detectors\' findings (fix 89f87523)',
                        'the order of packages handed to packageindex.New is the walk order (roots, files by name, extractors by configuration order): input of this model, subject of C01/C08',
                        'Extractor.ToPURL does not panic (C14)']
     ctx.rule = ('both tiers: order = 4 prefix-related findings dealt to 3 detectors in every way x every detector listing order (1458 scans) + 18 scans with several roots/statuses; '
@@ -166,13 +168,9 @@ def run(ctx):
     def classify(case, fi, fm):
         return _classify(case, fi, fm)
 
-    def finding_class(case, fi, fm):
-        return KF_EXF if _exf_class(case, fi, fm) else None
 
     lib.standard_stream(ctx, gen='c20gen', driver='drv_c20', gen_args=['-seed', str(ctx.seed), '-n', str(n), '-tier', ctx.tier],
-                        compare_keys=COMPARE, nontrivial=nontrivial, oracle=oracle, classify=classify, finding_class=finding_class, sample_every=1999)
-    if not ctx.replay and KF_EXF in ctx.known and KF_EXF not in ctx.known_hits:
-        ctx.violation('known finding %s no longer reproduces: the model (which mirrors it) no longer corresponds to the code' % KF_EXF, ['# ' + KF_EXF], found_input=False, name='stale-C20-exf')
+                        compare_keys=COMPARE, nontrivial=nontrivial, oracle=oracle, classify=classify, sample_every=1999)
     if not proofs_ok:
         lib.proof_failed(ctx, 'Scalibr.Properties.C20')
 
@@ -189,14 +187,6 @@ def _classify(case, fi, fm):
     return 'st=%s err=%s nocancel=%s consistent=%s exfindings=%s' % (fi.get('st', fi.get('_')), fi.get('err'), fm.get('wf'), fm.get('cons'), fm.get('exf'))
 
 
-def _exf_class(case, fi, fm):
-    """class predicate of known finding C20/extractor-findings-unvalidated: an EXTRACTOR's inventory carries findings, the findings of
-    the scan as a whole are inconsistent, and the only thing wrong is that the scan does not fail (or panics while sorting)"""
-    ps = problems(case, fi, fm)
-    return bool(ps) and set(ps) <= {'status', 'panic'} and fm.get('exf') == '1' and fm.get('consall') == '0' and \
-        (fi.get('_') == 'panic' or fi.get('st') == fm.get('sst'))
-
-
 def _borrowed(ctx, only, module, keep, n):
     """run the part `only` of the c20gen stream for another property's check (ctx.prop is that property): builds the Lean
     module + driver, replays the C20 witnesses of that kind first, judges only the problem classes in `keep`.
@@ -204,8 +194,6 @@ def _borrowed(ctx, only, module, keep, n):
     ok, _ = ctx.lean_build([module, 'drv_c20'])
 
     def oracle(case, fi, fm):
-        if _exf_class(case, fi, fm):
-            return None        # C20's known finding (extractor findings are not validated), judged by ./check C20
         ps = [p for p in problems(case, fi, fm) if p in keep]
         return ('; '.join(TEXT[p] for p in ps) + details(ps, fi, fm)) if ps else None
     args = ['-seed', str(ctx.seed), '-n', str(n), '-tier', 'quick', '-only', only]
